@@ -7,7 +7,7 @@ import (
 )
 
 type regWhich struct {
-	structure, sizes, roundtrip, flags, reach, inline, witness bool
+	structure, sizes, roundtrip, flags, reach, inline, witness, content bool
 }
 
 // regCheck builds the register view (durable registers overlaid with the pending
@@ -87,6 +87,16 @@ func (w *World) regCheck(which regWhich) *Violation {
 	if which.witness {
 		if v := w.witnessVerify(); v != nil {
 			return v
+		}
+	}
+	if which.content {
+		// the slabs decoded from these registers alone carry the content the producers had: elements in order,
+		// types, counts, inlined children - and intact sibling links and child references, or reading would fail
+		dl, err := w.VirtualLedger()
+		if err == nil {
+			if v := w.Recover(dl, w.Model, cmpOpts{}, "rt.content"); v != nil {
+				return v
+			}
 		}
 	}
 	return nil
@@ -200,9 +210,9 @@ func init() {
 		[]string{"reach.inlined-children", "reach.compact-encoding", "reach.external-group"})
 
 	regProp("C07", "exploration",
-		"always-on monitor over every register of the view produced by the size-adversarial workload (nested inlined arrays/maps/compact maps, shared type infos, collision groups, large-value slabs): decode+encode identity, identity of the decoded slab, head flags vs parsed content; no fault is needed to decide it (see DESIGN section 10); non-trivial = registers with inlined children were checked; distinct by trace hash",
+		"always-on monitor over every register of the view produced by the size-adversarial workload (nested inlined arrays/maps/compact maps, shared type infos, collision groups, large-value slabs): decode+encode identity, identity of the decoded slab, head flags vs parsed content, and the content read back from the registers alone vs the model; no fault is needed to decide it (see DESIGN section 10); non-trivial = registers with inlined children were checked; distinct by trace hash",
 		[]string{"rt.", "flag.", "reg.parse", "reg.decode"},
-		regWhich{roundtrip: true, flags: true},
+		regWhich{roundtrip: true, flags: true, content: true},
 		func(w *World, run *Stats, levels, slabs int) bool { return run.C["reach.inlined-children"] > 0 },
 		[]string{"reach.inlined-children", "reach.compact-encoding", "reach.external-group", "reach.large-value"})
 
